@@ -13,9 +13,57 @@ use vlib::report::{hex, panic_message, par_for, unhex, Acc, Deadline, Report, Ti
 
 use crate::common::build_file;
 
+/// A source with the seek semantics of `std::fs::File`: an absolute offset that does not fit the
+/// operating system's signed offset type is an error (a `Cursor` accepts any u64). Whether a byte
+/// string is accepted must not depend on this: opening reads only the trailer, it never has to
+/// go where the (possibly absurd) index offset points. `file_like_matches_a_real_file` binds the
+/// emulation to the platform's real behaviour once per run.
+pub struct FileLike<'a>(pub Cursor<&'a [u8]>);
+
+impl std::io::Read for FileLike<'_> {
+    fn read(&mut self, buf: &mut [u8]) -> std::io::Result<usize> {
+        self.0.read(buf)
+    }
+}
+
+impl std::io::Seek for FileLike<'_> {
+    fn seek(&mut self, pos: std::io::SeekFrom) -> std::io::Result<u64> {
+        if let std::io::SeekFrom::Start(n) = pos {
+            if n > i64::MAX as u64 {
+                return Err(std::io::Error::new(std::io::ErrorKind::InvalidInput, "Invalid argument (os error 22)"));
+            }
+        }
+        self.0.seek(pos)
+    }
+}
+
+/// Ok(true) if a real file on this platform refuses `seek(Start(2^63))` as `FileLike` does.
+pub fn file_like_matches_a_real_file() -> Result<bool, String> {
+    use std::io::{Seek, SeekFrom, Write};
+    let dir = vlib::report::verif_dir().join("harness/target");
+    let path = dir.join(format!("c13-seek-probe-{}", std::process::id()));
+    let mut f = std::fs::OpenOptions::new().create(true).truncate(true).read(true).write(true).open(&path).map_err(|e| e.to_string())?;
+    f.write_all(b"probe").map_err(|e| e.to_string())?;
+    let real = f.seek(SeekFrom::Start(1 << 63)).is_err();
+    drop(f);
+    let _ = std::fs::remove_file(&path);
+    // (real file systems refuse even smaller offsets, beyond their maximal file size; the
+    // emulation only refuses what no file system can accept)
+    Ok(real)
+}
+
 /// The oracle for one byte string. Ok(accepted?) or Err(message).
 pub fn check_bytes(bytes: &[u8]) -> Result<bool, String> {
     let want = parse_trailer(bytes);
+    // a file-like source first: same verdict expected
+    match catch_unwind(AssertUnwindSafe(|| Reader::new(FileLike(Cursor::new(bytes))).map(|_| ()))) {
+        Err(p) => return Err(format!("Reader::new over a file-like source panicked: {}", panic_message(&p))),
+        Ok(Ok(())) if want.is_none() => return Err("Reader::new over a file-like source accepted a byte string that does not end with a complete valid trailer".into()),
+        Ok(Err(e)) if want.is_some() => {
+            return Err(format!("Reader::new over a source with the seek semantics of a file rejected ({e}) a byte string ending with the valid trailer {:?}", want.unwrap()))
+        }
+        Ok(_) => {}
+    }
     let got = catch_unwind(AssertUnwindSafe(|| Reader::new(Cursor::new(bytes))));
     match got {
         Err(p) => Err(format!("Reader::new panicked: {}", panic_message(&p))),
@@ -111,6 +159,12 @@ pub fn run(tier: Tier) -> i32 {
     let deadline = Deadline::after(Duration::from_secs(tier.pick(50, 3000)));
     let files = finished_files(tier);
     let mut total = Acc::default();
+    // every byte string is also opened through a source with a file's seek semantics; the
+    // emulation is compared with a real file of this platform once
+    rep.set("file_like_source_matches_real_file_seek_semantics", json!(match file_like_matches_a_real_file() {
+        Ok(b) => json!(b),
+        Err(e) => json!(format!("probe not possible: {e}")),
+    }));
 
     // (a) every truncation length 0..=len of every finished file (crash points of an append-only writer)
     let mut trunc: Vec<(usize, usize)> = Vec::new();
